@@ -81,6 +81,9 @@ def impl(c):
                 with shuffled_scandir(c["seed"] + s):
                     d2 = Directory.from_disk(path=root + b"/" * c["slashes"])
                 orders.append({hx(k): v for k, v in collect_ids(d2).items()})
+            from swh.model import from_disk as _fd
+            with shuffled_scandir(c["seed"] + 7):
+                res["root_ignore_empty"] = Directory.from_disk(path=root, path_filter=_fd.ignore_empty_directories).hash.hex()
             res["shuffled_equal"] = all(o == res["ids"] for o in orders)
             if not res["shuffled_equal"]:
                 res["shuffled_ids"] = orders
@@ -99,7 +102,7 @@ def impl(c):
 
 def requests(c):
     t = enc_tree(c["tree"])
-    return ["ids all - id " + t, "ids all - rev " + t, "spec " + t]
+    return ["ids all - id " + t, "ids all - rev " + t, "spec " + t, "pruned empty " + t, "ids empty - id " + t]
 
 
 def model(c, resp):
@@ -110,6 +113,9 @@ def model(c, resp):
     res = {"ids": ids(resp[0]), "ids_rev": ids(resp[1])}
     p = resp[2].split(" ")
     res["node_id"], res["git_node_id"], res["wf"] = p[1], p[2], p[3]
+    res["pruned_empty_id"] = resp[3].split(" ")[1]          # git id of the tree with empty directories physically removed
+    e = ids(resp[4])
+    res["root_ignore_empty"] = e.get(".") if isinstance(e, dict) else str(e)
     return res
 
 
@@ -121,6 +127,9 @@ def oracle(c, ires, mres):
         return "root id %s is not the git tree id %s of this tree (spec-level encoder with git's ordering rule)" % (root, mres["git_node_id"])
     if not ires["shuffled_equal"]:
         return "ids depend on the order in which the OS lists entries, or on trailing slashes"
+    if ires["root_ignore_empty"] != mres["pruned_empty_id"]:
+        return ("with empty directories ignored the root id %s is not the git tree id %s of the tree without its (recursively) "
+                "empty directories, i.e. what `git add -A && git write-tree` gives" % (ires["root_ignore_empty"], mres["pruned_empty_id"]))
     if ires["swhid"] != "swh:1:dir:" + root:
         return "swhid() does not carry the root id"
     if ires["cli"] != "swh:1:dir:" + root:
@@ -137,6 +146,8 @@ def compare(c, ires, mres):
         return "model failed: " + str(mres["ids"])
     if mres["ids"] != mres["ids_rev"]:
         return "MODEL is listing-order dependent (model bug)"
+    if mres["root_ignore_empty"] != ires["root_ignore_empty"]:
+        return "root id with ignore_empty_directories differs between model and implementation"
     if mres["ids"] != ires["ids"]:
         a, b = mres["ids"], ires["ids"]
         diff = [k for k in set(a) | set(b) if a.get(k) != b.get(k)]
